@@ -22,9 +22,13 @@ package sumdb
 //@   let toSize   := to.Size
 //@   let fromSize := from.Size
 //@   prefer to.Size < 9223372036854775808 && from.Size >= 1 && from.Size <= 8
-//@   requires sdb != nil && sdb.fetcher != nil && len(to.Hash) >= 32
+//@   requires len(to.Hash) >= 32
 //@   modifies heap, n_pt, pt_t, pt_n, thr_n
 //@   ensures[C19.s] err != nil ==> p == nil
+//@   // every tile request of this proof is bound to the cycle's context: the client handed to the tile reader is built
+//@   // with the closure's own ctx (and this log's client and URL), so a silent log server cannot hold the cycle past its deadline
+//@   atcall[C19.ctx,C13.ctx] NewSumDBWithContext: $arg1 == ctx && $arg4 == l.URL && $arg5 == c
+//@   atcall[C19.ctx,C13.ctx] TileHashReader: tr.c != nil && unboxPtr(tr.c.fetcher, client.HTTPFetcher).ctx == ctx
 //@   // proof wiring (C18 part 2): the empty proof exactly for a zero old size; otherwise one ProveTree(to, from) over a
 //@   // tile reader for the tree (to.Size, to.Hash), and as many hashes returned as ProveTree produced
 //@   ensures[C18.fp] from.Size == 0 ==> err == nil && p != nil && len(p) == 0 && n_pt == old(n_pt)
@@ -33,11 +37,13 @@ package sumdb
 //@   invariant#1 n_pt == old(n_pt) + 1 && pt_t == to.Size && pt_n == from.Size && thr_n == to.Size
 //@   decreases#1 len(proof) - $i
 
+// fetchCheckpoint closure: the checkpoint request is bound to the cycle's context as well.
 //@ func FeedLog$2
 //@   returns (b, err)
-//@   requires sdb != nil && sdb.fetcher != nil
 //@   modifies n_gd, gd_paths
 //@   ensures[C19.s] true
+//@   atcall[C19.ctx,C13.ctx] NewSumDBWithContext: $arg1 == ctx && $arg4 == l.URL && $arg5 == c
+//@   atcall[C19.ctx,C13.ctx] LatestCheckpoint: $arg1 != nil && unboxPtr($arg1.fetcher, client.HTTPFetcher).ctx == ctx
 
 // Every tile tlog asks for is fetched from "/" + its reference path (tiles of the reader's height 8, widths 1..256):
 // the invariant pins the request made by each iteration (the most recent one) to the tile of that iteration.
